@@ -516,6 +516,7 @@ inductive Op where
   | begin
   | put (w k v : Nat)
   | del (w k : Nat)
+  | cas (w k : Nat) (e : Option Nat) (v : Nat)
   | dir (w d : Nat)
   | commit (w ts : Nat)
   | rollback (w : Nat)
@@ -525,6 +526,7 @@ def stepOp (C : Crypto) (n : Node) : Op → Node
   | .begin => beginWs n
   | .put w k v => (addOp n w (.put k v)).1
   | .del w k => (addOp n w (.del k)).1
+  | .cas w k e v => (addOp n w (.cas k e v)).1
   | .dir w d => setDir n w d
   | .commit w ts => (commit C n w ts).1
   | .rollback w => (rollbackWs n w).1
